@@ -551,6 +551,11 @@ class RaggedArray(IndexableArray, np.lib.mixins.NDArrayOperatorsMixin):
         cm = operator.accumulate(self.ravel(), dtype=dtype)
         if self.size == 0:
             return self.__class__(cm, self._shape)
+        if cm.dtype.kind == "f" and not np.isfinite(cm).all():
+            # the offset correction below is undefined once the running total is not finite (inf - inf):
+            # accumulate row by row
+            rows = [operator.accumulate(row, dtype=dtype) for row in self]
+            return self.__class__(np.concatenate(rows).astype(cm.dtype, copy=False), self._shape)
         # trailing empty rows start at self.size; their offset is never used
         row_starts = np.minimum(self._shape.starts, self.size-1)
         starts = self.ravel()[row_starts]
